@@ -81,7 +81,10 @@ def gen_call(rng, tok, cid='a', kinds=None, invalid_p=0.1, version=None):
             f = rng.choice(flds)
             dt = gen.first_leaf_dt(version, f[1])
             v, ok = gen.leaf(dt, tok, rng, inv)
-            steps.append([f[0] if rng.random() < 0.7 else (f[1][3] or f[0]), v])
+            st = [f[0] if rng.random() < 0.7 else (f[1][3] or f[0]), v]
+            if T.is_base(version, f[1][2]) and rng.random() < 0.3:
+                st.append(f[1][2])       # assigned as a base datatype object built with explicit arguments
+            steps.append(st)
         return {'kind': kind, 'name': name, 'version': version, 'level': level, 'ec': eci, 'steps': steps,
                 'then': ['er7', 'names']}
     if kind == 'highlight_encode':
@@ -312,10 +315,13 @@ def run_call(c, hook=None):
             ec = _ec(c['ec'])
             sg = Segment(c['name'], version=c['version'], validation_level=c['level'])
             log = []
-            for fname, v in c['steps']:
+            for st in c['steps']:
+                fname, v = st[0], st[1]
                 if hook:
                     hook('alive', sg)
                 try:
+                    if len(st) > 2:
+                        v = datatype_factory(st[2], v, c['version'], c['level'])
                     setattr(sg, fname, v)
                     log.append('ok')
                 except Exception as ex:      # noqa
